@@ -118,7 +118,7 @@ def run_case(ctx, chi, kinds, grids, obs, n_mech, psi, sig, seed, tag='gen'):
     mo = ctx.model('C01.call', False, len(kinds), kinds, data, table, list(sig))
     # --- chi
     try:
-        _, ll = build(chi, kinds, grids, obs, n_mech, seed)
+        umodel, ll = build(chi, kinds, grids, obs, n_mech, seed)
         constructed = True
     except Exception as e:  # noqa
         constructed = False
@@ -131,6 +131,17 @@ def run_case(ctx, chi, kinds, grids, obs, n_mech, psi, sig, seed, tag='gen'):
     if mo[0] != 'ok':
         return
     params = np.concatenate([psi, sig])
+    if ctx.cases % 3 == 0:
+        # the caller goes on using the model object the likelihood was built from (re-ordered outputs, other
+        # coefficients, sensitivities switched on): the likelihood keeps describing the model it was given
+        try:
+            if len(kinds) > 1:
+                umodel.set_outputs(list(reversed(umodel.outputs())))
+            umodel._b = umodel._b * 3.0 + 1.0
+            umodel._c = umodel._c[::-1].copy() * 0.5
+            umodel.enable_sensitivities(True)
+        except Exception as e:  # noqa
+            ctx.spec('C01.user_model_reused', False, inp, {'raised': repr(e)[:200]})
     if ctx.cases % 2 == 0:
         # an evaluation with sensitivities first: plain and pointwise evaluation afterwards must be unaffected
         try:
@@ -172,6 +183,21 @@ def run_case(ctx, chi, kinds, grids, obs, n_mech, psi, sig, seed, tag='gen'):
     if math.isfinite(v):
         ctx.spec('C01.pointwise_sum', core.close(float(np.sum(pw)), v), inp)
     ctx.spec('C01.pointwise_length', len(pw) == sum(len(g) for g in grids), inp)
+    # results handed out earlier stay what they were when the likelihood is evaluated again elsewhere
+    try:
+        with np.errstate(all='ignore'):
+            held = ll.compute_pointwise_ll(params)
+            snap = np.array(held, float, copy=True)
+            other = params * np.linspace(1.1, 1.4, len(params))
+            held2 = ll.compute_pointwise_ll(other)
+            ll(other)
+            ll.evaluateS1(other)
+        ctx.spec('C01.pointwise_result_stable',
+                 np.array_equal(np.asarray(held, float), snap, equal_nan=True), inp,
+                 {'first_result_then': snap, 'first_result_now': np.asarray(held, float)})
+        del held2
+    except Exception as e:  # noqa
+        ctx.spec('C01.pointwise_result_stable', False, inp, {'raised': repr(e)[:200]})
     # posterior = prior + likelihood
     if ctx.cases % 5 == 0:
         prior = pints.ComposedLogPrior(*[pints.GaussianLogPrior(1.0, 2.0) for _ in params])
